@@ -19,6 +19,7 @@ type RoachDevice struct {
 	nextS      FrameIndex
 	unwrapOpts AbacoUnwrapOptions
 	unwrap     []*PhaseUnwrapper
+	abort      chan struct{} // closed when the run ends: readPackets must not wait for a receiver any more
 }
 
 // RoachSource represents multiple ROACH devices
@@ -128,7 +129,15 @@ func (dev *RoachDevice) samplePacket() error {
 // One trick is that the UDP packets are small and can come many thousand per second.
 // We should bundle these up into larger blocks and send these more like 10-100
 // times per second.
+// It ends when the connection fails (also: is closed) or when dev.abort is closed; once that is closed
+// nobody receives from nextBlock any more, so it must not wait there.
 func (dev *RoachDevice) readPackets(nextBlock chan *dataBlock) {
+	send := func(block *dataBlock) {
+		select {
+		case nextBlock <- block:
+		case <-dev.abort:
+		}
+	}
 	// The packetBundleTime is how much data is bundled together before futher
 	// processing. The packetKeepaliveTime is how long we wait for even one packet
 	// before declaring the ROACH source dead.
@@ -147,8 +156,7 @@ func (dev *RoachDevice) readPackets(nextBlock chan *dataBlock) {
 		// This deadline tells us when to stop collecting packets and bundle them
 		deadline := time.Now().Add(packetBundleTime)
 		if err = dev.conn.SetReadDeadline(deadline); err != nil {
-			block := dataBlock{err: err}
-			nextBlock <- &block
+			send(&dataBlock{err: err})
 			return
 		}
 
@@ -164,8 +172,7 @@ func (dev *RoachDevice) readPackets(nextBlock chan *dataBlock) {
 				err = nil
 				break
 			} else if err != nil {
-				block := dataBlock{err: err}
-				nextBlock <- &block
+				send(&dataBlock{err: err})
 				return
 			}
 			savedPackets = append(savedPackets, p)
@@ -173,8 +180,7 @@ func (dev *RoachDevice) readPackets(nextBlock chan *dataBlock) {
 		// Bundling timeout expired. Were there were no data?
 		if len(savedPackets) == 0 {
 			if time.Now().After(keepAlive) {
-				block := dataBlock{err: fmt.Errorf("ROACH source timed out after %v", packetKeepaliveTime)}
-				nextBlock <- &block
+				send(&dataBlock{err: fmt.Errorf("ROACH source timed out after %v", packetKeepaliveTime)})
 				return
 			}
 			continue
@@ -245,7 +251,7 @@ func (dev *RoachDevice) readPackets(nextBlock chan *dataBlock) {
 				framePeriod:     dev.period,
 			}
 		}
-		nextBlock <- block
+		send(block)
 		if err != nil {
 			return
 		}
@@ -293,6 +299,7 @@ func (rs *RoachSource) StartRun() error {
 		defer close(rs.nextBlock)
 		nextBlock := make(chan *dataBlock)
 		for _, dev := range rs.active {
+			dev.abort = rs.abortSelf
 			go dev.readPackets(nextBlock)
 		}
 
